@@ -1,5 +1,5 @@
 (* C12 - the division with fixes/C12-zero-weight-children.patch applied
-   (Model divide_fixed): it always returns, within the same fuel bound. *)
+   (Model divide): it always returns, within the same fuel bound. *)
 From Coq Require Import ZArith List Bool Lia.
 From PTK Require Import Lib.Sx Model.C12_Divide Proofs.C12_Safety Proofs.C12_Gen Proofs.C12_Termination.
 Import ListNotations.
@@ -12,22 +12,83 @@ Proof.
   specialize (IH cr sr ltac:(congruence) ltac:(congruence)). destruct (w >? 0); lia.
 Qed.
 
-Theorem divide_fixed_total : forall done ds avail fuel,
+
+Lemma tgts_le_caps : forall start caps, le_all start caps ->
+  forall ws, length ws = length start -> le_all (tgts ws caps start) caps.
+Proof.
+  intros start caps H; induction H; intros [|w wr] Hl; simpl in *; try discriminate; constructor.
+  - destruct (w >? 0); lia.
+  - apply IHForall2. congruence.
+Qed.
+
+Lemma tgts_mono_start : forall start start', le_all start start' ->
+  forall ws caps, length ws = length start -> length caps = length start ->
+  le_all (tgts ws caps start) (tgts ws caps start').
+Proof.
+  intros start start' H; induction H; intros [|w wr] [|c cr] Hl Hc; simpl in *; try discriminate; constructor.
+  - destruct (w >? 0); lia.
+  - apply IHForall2; congruence.
+Qed.
+
+Lemma tgts_tgts : forall ws caps caps' start,
+  length ws = length caps -> length caps = length caps' -> length caps' = length start ->
+  tgts ws caps (tgts ws caps' start) = tgts ws caps start.
+Proof.
+  induction ws as [|w wr IH]; intros [|c cr] [|c' cr'] [|s sr] H1 H2 H3; simpl in *; try discriminate; try reflexivity.
+  rewrite IH by congruence. destruct (w >? 0); reflexivity.
+Qed.
+
+Lemma tgts_nonpos : forall ws caps start,
+  length ws = length caps -> length caps = length start ->
+  (forall c, nth c ws 0 <= 0) -> tgts ws caps start = start.
+Proof.
+  induction ws as [|w wr IH]; intros [|c cr] [|s sr] H1 H2 Hz; simpl in *; try discriminate; try reflexivity.
+  pose proof (Hz O) as H0. simpl in H0.
+  assert (w >? 0 = false) as -> by (rewrite Z.gtb_ltb; apply Z.ltb_ge; lia).
+  f_equal. apply IH; try congruence. intro k. apply (Hz (S k)).
+Qed.
+
+Lemma gen_init_none_nonpos : forall ws,
+  gen_init (seq 0 (length ws)) ws = None -> forall c, nth c ws 0 <= 0.
+Proof.
+  intros ws H c. destruct (Z_le_gt_dec (nth c ws 0) 0) as [|Hgt]; [assumption|]. exfalso.
+  assert (Hc : (c < length ws)%nat).
+  { destruct (Nat.lt_ge_cases c (length ws)); [assumption|]. rewrite nth_overflow in Hgt; lia. }
+  destruct (gen_init_some ws c Hc ltac:(lia)) as (g & Hg). congruence.
+Qed.
+
+(* what the result of the division satisfies *)
+Record good_fixed (done : bool) (ds : list dim) (avail : Z) (l : list Z) : Prop := {
+  gf_fit : zsum (mins ds) <= avail;
+  gf_len : length l = length ds;
+  gf_min : le_all (mins ds) l;
+  gf_max : le_all l (maxs ds);
+  gf_total : zsum l <= avail;
+  (* weighted children within min..max, weight-0 children at their minimum *)
+  gf_reach : le_all l (tgts (weights ds) (maxs ds) (mins ds));
+  (* preferred before extra, for the children that take part in growing *)
+  gf_pref_reached : reach_pref ds <= avail -> le_all (tgts (weights ds) (prefs ds) (mins ds)) l;
+  gf_no_extra : avail <= reach_pref ds -> le_all l (prefs ds);
+  (* the space is used as far as the weighted children can grow *)
+  gf_maximal : done = false -> zsum l = Z.min (Z.min avail (zsum (maxs ds))) (reach_max ds);
+  gf_done : done = true -> zsum l = Z.min (Z.min avail (zsum (prefs ds))) (reach_pref ds)
+}.
+
+Theorem divide_total : forall done ds avail fuel,
   Forall valid ds -> (divide_fuel ds avail <= fuel)%nat ->
-  (divide_fixed fuel done ds avail = TooSmall /\ ds <> [] /\ zsum (mins ds) > avail) \/
-  exists l, divide_fixed fuel done ds avail = Sizes l /\ zsum (mins ds) <= Z.max avail (zsum (mins ds)) /\
-    (ds <> [] -> zsum (mins ds) <= avail /\ length l = length ds /\
-                 le_all (mins ds) l /\ le_all l (maxs ds) /\ zsum l <= avail).
+  (divide fuel done ds avail = TooSmall /\ ds <> [] /\ zsum (mins ds) > avail) \/
+  exists l, divide fuel done ds avail = Sizes l /\
+            ((ds = [] /\ l = []) \/ (ds <> [] /\ good_fixed done ds avail l)).
 Proof.
   intros done ds avail fuel Hv Hfuel.
   destruct ds as [|d0 dr] eqn:Eds.
-  { right. exists []. split; [reflexivity|]. split; [lia|]. intro H; congruence. }
+  { right. exists []. split; [reflexivity|]. left. auto. }
   rewrite <- Eds in *.
   assert (Hne : ds <> []) by (rewrite Eds; discriminate).
   destruct (valid_sums ds Hv) as (S0 & S1 & S2).
   destruct (valid_le_all ds Hv) as (L1 & L2).
   fold (mins ds) in *. fold (prefs ds) in *. fold (maxs ds) in *.
-  unfold divide_fixed. rewrite Eds. rewrite <- Eds.
+  unfold divide. rewrite Eds. rewrite <- Eds.
   rewrite (sum_layout_valid _ Hv). cbn [dmin dmax dpref].
   fold (mins ds). fold (prefs ds). fold (maxs ds). fold (weights ds).
   destruct (zsum (mins ds) >? avail) eqn:Esm.
@@ -38,11 +99,37 @@ Proof.
   assert (Hlmin : length (mins ds) = length ds) by (unfold mins; apply map_length).
   assert (Hlpref : length (prefs ds) = length ds) by (unfold prefs; apply map_length).
   assert (Hlmax : length (maxs ds) = length ds) by (unfold maxs; apply map_length).
+  set (tgt1 := tgts (weights ds) (prefs ds) (mins ds)).
+  set (tgtm := tgts (weights ds) (maxs ds) (mins ds)).
+  assert (Hmt1 : le_all (mins ds) tgt1) by (apply tgts_ge; [exact L1|congruence]).
+  assert (Ht1p : le_all tgt1 (prefs ds)) by (apply tgts_le_caps; [exact L1|congruence]).
+  assert (Ht1m : le_all tgt1 tgtm) by (apply (tgt1_le_tgt2 ds Hv)).
+  assert (Hmm : le_all (mins ds) (maxs ds)) by (apply le_all_trans with (prefs ds); assumption).
+  assert (Htmm : le_all tgtm (maxs ds)) by (apply tgts_le_caps; [exact Hmm|congruence]).
+  pose proof (le_all_sum _ _ Hmt1) as Sm1. pose proof (le_all_sum _ _ Ht1p) as S1p.
+  pose proof (le_all_sum _ _ Ht1m) as S1m. pose proof (le_all_sum _ _ Htmm) as Smm.
+  assert (Erp : reach_pref ds = zsum tgt1) by reflexivity.
+  assert (Erm : reach_max ds = zsum tgtm) by reflexivity.
   replace (seq 0 (length ds)) with (seq 0 (length (weights ds))) by (rewrite Hlw; reflexivity).
   destruct (gen_init (seq 0 (length (weights ds))) (weights ds)) as [g0|] eqn:Hinit.
-  2:{ exists (mins ds). split; [reflexivity|]. split; [lia|]. intros _.
-      split; [exact Hfit|]. split; [congruence|]. split; [apply le_all_refl|].
-      split; [eapply le_all_trans; eassumption|lia]. }
+  2:{ (* no weighted child: everybody keeps the minimum *)
+      pose proof (gen_init_none_nonpos _ Hinit) as Hz.
+      assert (E1 : tgt1 = mins ds) by (apply tgts_nonpos; [congruence|congruence|exact Hz]).
+      assert (Em : tgtm = mins ds) by (apply tgts_nonpos; [congruence|congruence|exact Hz]).
+      assert (Rp : reach_pref ds = zsum (mins ds)) by (unfold reach_pref; fold tgt1; rewrite E1; reflexivity).
+      assert (Rm : reach_max ds = zsum (mins ds)) by (unfold reach_max; fold tgtm; rewrite Em; reflexivity).
+      exists (mins ds). split; [reflexivity|]. right. split; [exact Hne|].
+      constructor.
+      - exact Hfit.
+      - congruence.
+      - apply le_all_refl.
+      - exact Hmm.
+      - exact Hfit.
+      - fold tgtm. rewrite Em. apply le_all_refl.
+      - intros _. fold tgt1. rewrite E1. apply le_all_refl.
+      - intros _. exact L1.
+      - intros _. lia.
+      - intros _. lia. }
   destruct (gen_init_spec _ _ Hinit) as (I0 & _).
   destruct (next_total g0 I0) as (i & g1 & Hn & Hrel). rewrite Hn.
   destruct (g1_facts ds g0 g1 i Hinit Hrel) as (I1 & Hi1 & Hm & Hmw).
@@ -57,21 +144,37 @@ Proof.
   assert (HC1 : Z.of_nat fuel > Cmax D g1).
   { unfold Cmax. assert (Z.of_nat (length (g_items g1)) * ((D + g_i g1) * g_maxw g1 + 1) <= X); [|lia].
     unfold X. apply fuel_arith; try lia. nia. }
-  set (pstop := Z.min (Z.min avail (zsum (prefs ds))) (zsum (mins ds) + room (weights ds) (prefs ds) (mins ds))).
-  assert (Hp4 : pstop <= zsum (tgts (weights ds) (prefs ds) (mins ds))).
-  { unfold pstop. rewrite room_tgts by congruence. lia. }
-  destruct (grow_total (prefs ds) (mins ds) (tgts (weights ds) (prefs ds) (mins ds))
+  assert (Hroom1 : zsum (mins ds) + room (weights ds) (prefs ds) (mins ds) = reach_pref ds)
+    by (unfold reach_pref; apply room_tgts; congruence).
+  rewrite Hroom1.
+  set (pstop := Z.min (Z.min avail (zsum (prefs ds))) (reach_pref ds)).
+  assert (Hp4 : pstop <= zsum tgt1) by (unfold pstop, reach_pref, tgt1; lia).
+  destruct (grow_total (prefs ds) (mins ds) tgt1
               pstop D g1 I1 Hlen1
               (H3_1 ds g0 g1 i Hinit Hrel) (H5_1 ds g0 g1 i Hinit Hrel) Hp4 ltac:(lia) ltac:(unfold pstop; lia)
               fuel i (R0_1 ds Hv g0 g1 i Hrel) HC1) as (s1 & i1 & g2 & Hg1 & Hend1 & Hi2).
   rewrite Hg1.
   destruct (grow_spec next _ _ _ _ _ _ _ _ _ (eq_sym Hlen1) Hg1) as (Hl1 & Hle1 & Hcap1 & Hsum1).
   specialize (Hcap1 L1).
-  assert (Hs1max : le_all s1 (maxs ds)) by (eapply le_all_trans; eassumption).
-  assert (Hs1tot : zsum s1 <= avail) by (unfold pstop in Hsum1; lia).
+  pose proof (r_hi _ _ _ _ _ _ Hend1) as Hs1t1. fold tgt1 in Hs1t1.
+  assert (Hs1max : le_all s1 (maxs ds)) by (apply le_all_trans with (prefs ds); assumption).
+  assert (Hs1sum : zsum s1 = pstop) by (unfold pstop in *; lia).
+  assert (Hs1tot : zsum s1 <= avail) by (unfold pstop in Hs1sum; lia).
+  assert (Hs1eq : reach_pref ds <= avail -> s1 = tgt1).
+  { intro Hr. apply le_all_sum_eq; [exact Hs1t1|]. fold (reach_pref ds). unfold pstop in Hs1sum. lia. }
   destruct done.
-  { exists s1. split; [reflexivity|]. split; [lia|]. intros _.
-    split; [exact Hfit|]. split; [congruence|]. split; [exact Hle1|]. split; [exact Hs1max|exact Hs1tot]. }
+  { exists s1. split; [reflexivity|]. right. split; [exact Hne|].
+    constructor.
+    - exact Hfit.
+    - congruence.
+    - exact Hle1.
+    - exact Hs1max.
+    - exact Hs1tot.
+    - fold tgtm. apply le_all_trans with tgt1; assumption.
+    - intro Hr. fold tgt1. rewrite (Hs1eq Hr). apply le_all_refl.
+    - intros _. exact Hcap1.
+    - discriminate.
+    - intros _. exact Hs1sum. }
   pose proof (r_inv _ _ _ _ _ _ Hend1) as I2.
   pose proof (r_items _ _ _ _ _ _ Hend1) as It2.
   pose proof (r_maxw _ _ _ _ _ _ Hend1) as Mw2.
@@ -80,13 +183,21 @@ Proof.
   set (tgt2 := tgts (weights ds) (maxs ds) s1).
   assert (Htn : forall c, nth c tgt2 0 = if nth c (weights ds) 0 >? 0 then nth c (maxs ds) 0 else nth c s1 0).
   { apply tgts_nth; congruence. }
+  assert (Hs1t2 : le_all s1 tgt2) by (apply tgts_ge; [exact Hs1max|congruence]).
+  (* weight-0 children are still at their minimum, so tgt2 is tgtm *)
+  assert (Ht2m : le_all tgt2 tgtm).
+  { unfold tgtm. rewrite <- (tgts_tgts (weights ds) (maxs ds) (prefs ds) (mins ds)) by congruence.
+    fold tgt1. apply tgts_mono_start; [exact Hs1t1|congruence|congruence]. }
+  assert (Hmt2 : le_all tgtm tgt2) by (apply tgts_mono_start; [exact Hle1|congruence|congruence]).
+  assert (Hsum_t2 : zsum tgt2 = reach_max ds).
+  { pose proof (le_all_sum _ _ Ht2m). pose proof (le_all_sum _ _ Hmt2). unfold reach_max. fold tgtm. lia. }
   assert (HR2 : R0 s1 tgt2 g2 s1 i1 g2).
   { destruct (r_cur _ _ _ _ _ _ Hend1) as (q & Hq & Hqm & Hc).
     constructor; try reflexivity.
     - exact I2.
     - exists q. rewrite It2. auto.
     - apply le_all_refl.
-    - apply tgts_ge; [exact Hs1max|congruence]. }
+    - exact Hs1t2. }
   assert (H32 : forall c, nth c s1 0 < nth c tgt2 0 ->
                 exists p, (p < length (g_items g2))%nat /\ nth p (g_items g2) O = c).
   { intros c Hc. rewrite Htn in Hc. destruct (nth c (weights ds) 0 >? 0) eqn:E; [|lia].
@@ -96,8 +207,11 @@ Proof.
   { intros p Hp. rewrite It2 in *. rewrite Htn.
     destruct (items_pos ds g0 g1 i Hinit Hrel p Hp) as (_ & Hw).
     assert (nth (nth p (g_items g1) O) (weights ds) 0 >? 0 = true) as -> by (apply Z.gtb_lt; exact Hw). reflexivity. }
-  set (mstop := Z.min (Z.min avail (zsum (maxs ds))) (zsum s1 + room (weights ds) (maxs ds) s1)).
-  assert (Hm4 : mstop <= zsum tgt2) by (unfold mstop, tgt2; rewrite room_tgts by congruence; lia).
+  assert (Hroom2 : zsum s1 + room (weights ds) (maxs ds) s1 = reach_max ds)
+    by (rewrite room_tgts by congruence; exact Hsum_t2).
+  rewrite Hroom2.
+  set (mstop := Z.min (Z.min avail (zsum (maxs ds))) (reach_max ds)).
+  assert (Hm4 : mstop <= zsum tgt2) by (unfold mstop; lia).
   assert (HI : g_i g2 <= (D + 1) * W + 3).
   { unfold Imax in Hi2. assert ((D + g_i g1) * g_maxw g1 <= (D + 1) * W) by (apply Z.mul_le_mono_nonneg; lia). lia. }
   assert (HC2 : Z.of_nat fuel > Cmax D g2).
@@ -105,10 +219,89 @@ Proof.
     assert (Z.of_nat (length (g_items g1)) * ((D + g_i g2) * g_maxw g1 + 1) <= X); [|lia].
     unfold X. apply fuel_arith; try lia. pose proof (gi_i g2 I2). lia. }
   destruct (grow_total (maxs ds) s1 tgt2 mstop D g2 I2 Hls1 H32 H52 Hm4 ltac:(lia) ltac:(unfold mstop; lia)
-              fuel i1 HR2 HC2) as (s2 & i2 & g3 & Hg2 & _).
+              fuel i1 HR2 HC2) as (s2 & i2 & g3 & Hg2 & Hend2 & _).
   rewrite Hg2.
   destruct (grow_spec next _ _ _ _ _ _ _ _ _ (eq_sym Hls1) Hg2) as (Hl2 & Hle2 & Hcap2 & Hsum2).
-  exists s2. split; [reflexivity|]. split; [lia|]. intros _.
-  split; [exact Hfit|]. split; [congruence|]. split; [eapply le_all_trans; eassumption|].
-  split; [apply Hcap2; exact Hs1max|]. unfold mstop in Hsum2. lia.
+  pose proof (r_hi _ _ _ _ _ _ Hend2) as Hs2t2.
+  pose proof (le_all_sum _ _ Hs1max) as Hs1mx. pose proof (le_all_sum _ _ Hs1t2) as Hs1t2s.
+  assert (Hs2sum : zsum s2 = mstop) by (unfold mstop in *; lia).
+  exists s2. split; [reflexivity|]. right. split; [exact Hne|].
+  constructor.
+  - exact Hfit.
+  - congruence.
+  - apply le_all_trans with s1; assumption.
+  - apply Hcap2; exact Hs1max.
+  - unfold mstop in Hs2sum. lia.
+  - fold tgtm. apply le_all_trans with tgt2; assumption.
+  - intro Hr. fold tgt1. rewrite <- (Hs1eq Hr). exact Hle2.
+  - intro Hr. (* the first loop already used all the space *)
+    assert (s2 = s1) as ->; [|exact Hcap1].
+    symmetry. apply le_all_sum_eq; [exact Hle2|]. unfold mstop, pstop in *. lia.
+  - intros _. exact Hs2sum.
+  - discriminate.
+Qed.
+
+(* 'too small' exactly when the minimums do not fit (any fuel, any weights) *)
+Lemma divide_too_small_iff : forall fuel done ds avail,
+  Forall valid ds ->
+  (divide fuel done ds avail = TooSmall <-> ds <> [] /\ zsum (mins ds) > avail).
+Proof.
+  intros fuel done ds avail Hv. unfold divide.
+  destruct ds as [|d0 dr].
+  - split; [discriminate|]. intros [H _]; congruence.
+  - rewrite (sum_layout_valid _ Hv). cbn [dmin dmax dpref].
+    destruct (zsum (map dmin (d0 :: dr)) >? avail) eqn:E.
+    + apply Z.gtb_lt in E. split; [|reflexivity]. intros _. split; [discriminate|unfold mins; lia].
+    + assert (zsum (map dmin (d0 :: dr)) <= avail)
+        by (rewrite Z.gtb_ltb in E; apply Z.ltb_ge in E; lia).
+      split.
+      * destruct (gen_init _ _); [|discriminate]. destruct (next g) as [[? ?]|]; [|discriminate].
+        destruct (grow _ _ _ _ _ _ _) as [[[? ?] ?]|]; [|discriminate].
+        destruct done; [discriminate|].
+        destruct (grow _ _ _ _ _ _ _) as [[[? ?] ?]|]; discriminate.
+      * unfold mins. intros [_ ?]. lia.
+Qed.
+
+(* whenever sizes come back (with enough fuel they always do) they are good *)
+Lemma divide_sizes_good : forall fuel done ds avail l,
+  Forall valid ds -> (divide_fuel ds avail <= fuel)%nat -> ds <> [] ->
+  divide fuel done ds avail = Sizes l -> good_fixed done ds avail l.
+Proof.
+  intros fuel done ds avail l Hv Hf Hne Hd.
+  destruct (divide_total done ds avail fuel Hv Hf) as [(H & _)|(l' & H & [(E & _)|(_ & G)])].
+  - congruence.
+  - congruence.
+  - rewrite H in Hd. injection Hd as <-. exact G.
+Qed.
+
+Lemma tgts_allpos : forall ws caps start,
+  length ws = length caps -> length caps = length start ->
+  (forall c, (c < length ws)%nat -> 0 < nth c ws 0) -> tgts ws caps start = caps.
+Proof.
+  induction ws as [|w wr IH]; intros [|c cr] [|s sr] H1 H2 Hp; simpl in *; try discriminate; try reflexivity.
+  pose proof (Hp O ltac:(lia)) as H0. simpl in H0.
+  assert (w >? 0 = true) as -> by (apply Z.gtb_lt; lia).
+  f_equal. apply IH; try congruence. intros k Hk. apply (Hp (S k)). lia.
+Qed.
+
+(* no weight-0 child: the unrelaxed clauses *)
+Lemma divide_all_weighted : forall fuel ds avail l,
+  Forall valid ds -> (divide_fuel ds avail <= fuel)%nat -> ds <> [] ->
+  (forall c, (c < length ds)%nat -> 0 < nth c (weights ds) 0) ->
+  divide fuel false ds avail = Sizes l ->
+  (zsum (prefs ds) <= avail -> le_all (prefs ds) l) /\
+  zsum l = Z.min avail (zsum (maxs ds)).
+Proof.
+  intros fuel ds avail l Hv Hf Hne Hp Hd.
+  destruct (divide_sizes_good fuel false ds avail l Hv Hf Hne Hd) as [_ _ _ _ _ _ Hpr _ Hmx _].
+  assert (Hlw : length (weights ds) = length ds) by (unfold weights; apply map_length).
+  assert (Hlmin : length (mins ds) = length ds) by (unfold mins; apply map_length).
+  assert (Hlpref : length (prefs ds) = length ds) by (unfold prefs; apply map_length).
+  assert (Hlmax : length (maxs ds) = length ds) by (unfold maxs; apply map_length).
+  assert (E1 : tgts (weights ds) (prefs ds) (mins ds) = prefs ds)
+    by (apply tgts_allpos; [congruence|congruence|rewrite Hlw; exact Hp]).
+  assert (E2 : tgts (weights ds) (maxs ds) (mins ds) = maxs ds)
+    by (apply tgts_allpos; [congruence|congruence|rewrite Hlw; exact Hp]).
+  unfold reach_pref in Hpr. unfold reach_max in Hmx. rewrite E1 in Hpr. rewrite E2 in Hmx.
+  split; [exact Hpr|]. rewrite (Hmx eq_refl). lia.
 Qed.
